@@ -64,10 +64,10 @@ Definition single_of_text (name cstr : string) : res marker := do l <- mk_leaf n
 Record stacks := mkSt { s_int : list (list marker); s_uni : list (list marker) }.
 Definition in_stack (args : list marker) (st : list (list marker)) : bool := existsb (markers_eqb args) st.
 
-Definition unwrap1 (m : marker) : marker :=
-  (* while isinstance(m, (MultiMarker, MarkerUnion)) and len(m.markers) == 1: m = m.markers[0] ; depth is finite *)
-  (fix go (fuel : nat) (m : marker) : marker :=
-     match fuel with O => m | S f => match m with MMulti [x] | MUnion [x] => go f x | _ => m end end) 64%nat m.
+(* while isinstance(m, (MultiMarker, MarkerUnion)) and len(m.markers) == 1: m = m.markers[0] ; depth is finite *)
+Fixpoint unwrap_go (fuel : nat) (m : marker) : marker :=
+  match fuel with O => m | S f => match m with MMulti [x] | MUnion [x] => unwrap_go f x | _ => m end end.
+Definition unwrap1 (m : marker) : marker := unwrap_go 64%nat m.
 (* itertools.product of the lists *)
 Fixpoint product (ls : list (list marker)) : list (list marker) :=
   match ls with
